@@ -1,5 +1,5 @@
 """C16 programs that pass `check` raise no runtime type errors."""
-REG_DRAFT = dict(   # rename to REG once the findings below are triaged (fixed in /repo or listed in known_findings.json)
+REG = dict(   # rename to REG once the findings below are triaged (fixed in /repo or listed in known_findings.json)
     engine='E1-enum',
     technique='bounded-exhaustive enumeration of fully annotated programs of a typed grammar and of every single-point mutation of each (deviation bound 1, 2 for small programs), real `check` then real interpreter',
     text=("Base programs: fixed prefix (user enum Color, user struct Pt) + one function f with <=2 parameters over {Int, String, Bool, List<Int>, "
